@@ -147,8 +147,11 @@ def _project(case, out, log, init, ret_h):
     slack = min(slack, Fraction(dt) / 4)  # never so wide that a genuinely different start time counts as Tend
     near = lambda x: abs(Fraction(x) - Fraction(tend)) <= slack  # noqa
 
-    def close(a, b):  # equal up to 4 units in the last place of the larger magnitude
-        return abs(Fraction(a) - Fraction(b)) <= 4 * Fraction(math.ulp(max(abs(a), abs(b), 1e-300)))
+    def close(a, b):
+        # equal up to 4 units in the last place -- of the magnitude of the times the run computes with: where the time axis crosses
+        # zero the two expressions the code uses for one instant cancel differently, and the difference is an ulp of |t0|, not of
+        # the (tiny) result
+        return abs(Fraction(a) - Fraction(b)) <= 4 * Fraction(math.ulp(max(abs(a), abs(b), mag)))
 
     for k, s in enumerate(steps):
         s['contig'] = True if k == 0 else bool(close(s['t'], steps[k - 1]['e']))
